@@ -1,7 +1,7 @@
 """names available to sidecar contract files."""
 from .types import *
 from .values import Box, SV, Obj, wrap, to_z3, type_of, PArr, EngineError
-from .interp import LoopSpec, Builtin
+from .interp import LoopSpec, BlockSpec, Builtin
 from .builtins import OneShot
 from .verify import FunctionContract, Lemma
 import z3
